@@ -135,6 +135,40 @@ pub fn random_coded(rng: &mut Rng, max_params: usize, max_n: usize) -> CodedSpec
     CodedSpec { names, funcs, x }
 }
 
+/// a specification with many model parameters (sizes around the word sizes 32/64/128/256 that a
+/// bit set or a small index type could depend on): every parameter is used by at least one function
+pub fn random_coded_wide(rng: &mut Rng, max_n: usize) -> CodedSpec {
+    const POOL: [&str; 12] = ["tau", "omega", "mu", "sigma", "k", "q", "phi", "rho", "zeta", "nu", "xi", "chi"];
+    const SIZES: [usize; 20] = [11, 17, 31, 32, 33, 48, 63, 64, 65, 66, 70, 100, 127, 128, 129, 130, 200, 255, 256, 257];
+    let np = *rng.pick(&SIZES);
+    let mut names: Vec<String> = (0..np).map(|i| format!("{}{}", POOL[i % 12], i)).collect();
+    rng.shuffle(&mut names);
+    let mut funcs: Vec<CodedFn> = Vec::new();
+    let mut rest = names.clone();
+    rng.shuffle(&mut rest);
+    while !rest.is_empty() {
+        let k = rng.int(1, 10).min(rest.len());
+        let mut sub: Vec<String> = rest.drain(..k).collect();
+        // sometimes share a parameter that belongs to another function as well
+        if sub.len() < 10 && rng.chance(0.3) {
+            let extra = rng.pick(&names).clone();
+            if !sub.contains(&extra) {
+                let at = rng.below(sub.len() + 1);
+                sub.insert(at, extra);
+            }
+        }
+        let order = rng.perm(sub.len());
+        funcs.push(CodedFn { params: sub, deriv_order: order });
+    }
+    for _ in 0..rng.int(0, 2) {
+        let pos = rng.below(funcs.len() + 1);
+        funcs.insert(pos, CodedFn { params: vec![], deriv_order: vec![] });
+    }
+    let n = rng.int(1, max_n);
+    let x: Vec<f64> = (0..n).map(|i| 0.37 * i as f64 + rng.range(0.0, 0.1)).collect();
+    CodedSpec { names, funcs, x }
+}
+
 /// the oracle's routing: arguments of function j taken from α by *name*
 pub fn route<T: Sc>(spec: &CodedSpec, j: usize, alpha: &[T]) -> Vec<T> {
     spec.funcs[j]
